@@ -270,10 +270,15 @@ static void s_scanner_define_string(Sc& s) {
 static void s_save_load_stream(Sc& s) {
   if (!sc_init(s)) return;
   YR_RULES* r = sc_compile(s, frags_src({"text", "hexchain", "regreedy", "count", "forin", "tests", "hash"})); if (!r) return;
+  std::string buf = frags_plants({"text", "hexchain", "regreedy", "count", "forin"});
+  // a save that fails must leave the rules usable: scanned again (faults off) they report what they reported before
+  static std::string before; { Recorder rec0; yr_rules_scan_mem(r, (const uint8_t*) buf.data(), buf.size(), 0, recorder_callback, &rec0, 0); before = rec0.text; }
+  static bool save_failed; save_failed = false;
+  s.probe = [r, buf]() -> std::string { if (!save_failed) return ""; Recorder rec1; int rc1 = yr_rules_scan_mem(r, (const uint8_t*) buf.data(), buf.size(), 0, recorder_callback, &rec1, 0); if (rc1 != ERROR_SUCCESS || rec1.text != before) return "rules-unusable-after-failed-save: rc " + std::string(yr_error_name(rc1)); return ""; };
   s.arm();
   std::string image; int rc; s.pre(); save_rules(r, image, &rc);
+  if (rc != ERROR_SUCCESS) save_failed = true;
   if (!s.S("yr_rules_save_stream", rc, image)) return;
-  std::string buf = frags_plants({"text", "hexchain", "regreedy", "count", "forin"});
   if (!sc_scan_mem(s, r, buf, "scan_original_after_save")) return;
   YR_RULES* l = NULL; s.pre(); rc = load_rules(image, &l);
   if (!s.S("yr_rules_load_stream", rc)) return;
@@ -283,9 +288,13 @@ static void s_save_load_stream(Sc& s) {
 static void s_save_load_file(Sc& s) {
   if (!sc_init(s)) return;
   YR_RULES* r = sc_compile(s, frags_src({"text", "regreedy", "ofset", "math"})); if (!r) return;
+  std::string fbuf = frags_plants({"text", "regreedy", "ofset"});
+  static std::string fbefore; { Recorder rec0; yr_rules_scan_mem(r, (const uint8_t*) fbuf.data(), fbuf.size(), 0, recorder_callback, &rec0, 0); fbefore = rec0.text; }
+  static bool fsave_failed; fsave_failed = false;
+  s.probe = [r, fbuf]() -> std::string { if (!fsave_failed) return ""; Recorder rec1; int rc1 = yr_rules_scan_mem(r, (const uint8_t*) fbuf.data(), fbuf.size(), 0, recorder_callback, &rec1, 0); if (rc1 != ERROR_SUCCESS || rec1.text != fbefore) return "rules-unusable-after-failed-save: rc " + std::string(yr_error_name(rc1)); return ""; };
   s.arm();
   std::string path = tmp_dir() + "/c16.yarc";
-  if (!ST(s, "yr_rules_save", yr_rules_save(r, path.c_str()))) return;
+  { s.pre(); int src = yr_rules_save(r, path.c_str()); if (src != ERROR_SUCCESS) fsave_failed = true; if (!s.S("yr_rules_save", src)) return; }
   YR_RULES* l = NULL;
   if (!ST(s, "yr_rules_load", yr_rules_load(path.c_str(), &l))) return;
   s.rules.push_back(l);
